@@ -68,6 +68,43 @@ READS = {"read", "readline", "readlines", "read1", "readinto"}
 STREAM_FILES = ("sharepoint2text/parsing/extractors/data_types.py", "sharepoint2text/parsing/extractors/serialization.py")
 
 
+INPUT_PARAM = "file_like"
+
+
+def _seek0_gen(call):
+    f = call.func
+    if isinstance(f, ast.Attribute) and f.attr == "seek" and len(call.args) >= 1 and isinstance(call.args[0], ast.Constant) \
+            and call.args[0].value == 0 and (len(call.args) == 1 or (isinstance(call.args[1], ast.Constant) and call.args[1].value == 0)):
+        return [("at0", ast.unparse(f.value))]
+    return []
+
+
+def _callers_pass_at0(m, helper, pname):
+    """Every call of `helper` in its module passes, for parameter `pname`, a stream that is at offset 0: a fresh
+    io.BytesIO(...) or a name for which `seek(0)` dominates the call."""
+    ps = params_of(helper)
+    idx = ps.index(pname)
+    n_calls, bad = 0, []
+    for q, fnode in m.functions.items():
+        def need(node, _h=helper.name):
+            if isinstance(node, ast.Call) and isinstance(node.func, ast.Name) and node.func.id == _h:
+                arg = node.args[idx] if idx < len(node.args) else next((k.value for k in node.keywords if k.arg == pname), None)
+                if arg is None:
+                    return []
+                if isinstance(arg, ast.Call) and dotted(arg.func).split(".")[-1] == "BytesIO":
+                    return [(("fresh",), "fresh stream")]
+                return [(("at0", ast.unparse(arg)), "positioned")]
+            return []
+        mf = MustFacts(gen=_seek0_gen, need=need, kill_names=lambda fact: [fact[1].split(".")[0]] if len(fact) > 1 else [])
+        for nd in mf.run(fnode, entry_facts=[("fresh",)]):
+            n_calls += 1
+            if not nd.ok:
+                bad.append(f"{q}:{nd.node.lineno}")
+    if n_calls and not bad:
+        return True, f" (established by all {n_calls} call site(s): fresh io.BytesIO / seek(0) before the call)"
+    return False, f" (call sites without the fact: {bad})" if bad else " (no call site found)"
+
+
 def stream_obligations(mods):
     """`X.read*()` on a stream the function does not own must be dominated by `X.seek(0)` (same receiver expression, no
     reassignment of its root in between).  Scope: result classes and the serializer (streams owned by a result), plus
@@ -92,23 +129,21 @@ def stream_obligations(mods):
                     return False
                 if rel in STREAM_FILES:
                     return r in params or r == "self" or isinstance(recv, ast.Attribute)
-                return False
+                return isinstance(recv, ast.Name) and recv.id == INPUT_PARAM and INPUT_PARAM in params     # the caller's input buffer
             def need(node):
                 if isinstance(node, ast.Call) and isinstance(node.func, ast.Attribute) and node.func.attr in READS and foreign(node.func.value):
                     return [(("at0", ast.unparse(node.func.value)), f"{ast.unparse(node.func)}() starts at offset 0")]
                 return []
-            def gen(call):
-                f = call.func
-                if isinstance(f, ast.Attribute) and f.attr == "seek" and len(call.args) >= 1 and isinstance(call.args[0], ast.Constant) \
-                        and call.args[0].value == 0 and (len(call.args) == 1 or (isinstance(call.args[1], ast.Constant) and call.args[1].value == 0)):
-                    return [("at0", ast.unparse(f.value))]
-                return []
-            mf = MustFacts(gen=gen, need=need, kill_names=lambda fact: [fact[1].split(".")[0].split("[")[0]])
+            mf = MustFacts(gen=_seek0_gen, need=need, kill_names=lambda fact: [fact[1].split(".")[0].split("[")[0]])
             res = mf.run(fnode)
             if not res:
                 continue
             n_fn += 1
             for k, nd in enumerate(res):
+                if not nd.ok and rel not in STREAM_FILES and fnode.name.startswith("_"):
+                    # private helper: the fact may be established by every caller (fresh io.BytesIO(...) or seek(0) before the call)
+                    nd.ok, extra = _callers_pass_at0(m, fnode, INPUT_PARAM)
+                    nd.desc += extra
                 o = ground_obligation(f"C06/{rel.split('/')[-1]}::{q}/stream#read-starts-at-offset-0-{k}", bool(nd.ok),
                                       f"{rel}:{nd.node.lineno} {nd.desc}" + ("" if nd.ok else ": no `seek(0)` on every path before it -- "
                                                                             "the bytes read depend on where an earlier reader left the cursor"), rel)
